@@ -184,6 +184,45 @@ func (c c19Sticky) Choose(enabled []string, _ []string, cur int) int {
 	return c.R.Intn(len(enabled))
 }
 
+// c19Pause is the directed one-pause shape: thread First is released K times (K-1 of
+// its storage operations execute), then every other thread runs to completion in the
+// order Rest, then First resumes. Enumerated over First × K × {creation order,
+// reverse}; it contains the minimal witnesses of "read … other clients act … write".
+type c19Pause struct {
+	First     string
+	K         int
+	Rest      []string
+	n         int
+	Exhausted bool // First finished before it was released K times
+}
+
+func (c *c19Pause) Choose(enabled []string, _ []string, _ int) int {
+	idx := func(name string) int {
+		for i, e := range enabled {
+			if e == name {
+				return i
+			}
+		}
+		return -1
+	}
+	if c.n < c.K {
+		if i := idx(c.First); i >= 0 {
+			c.n++
+			return i
+		}
+		c.Exhausted = true
+	}
+	for _, name := range c.Rest {
+		if i := idx(name); i >= 0 {
+			return i
+		}
+	}
+	if i := idx(c.First); i >= 0 {
+		return i
+	}
+	return 0
+}
+
 // ---------------------------------------------------------------- trace analysis
 
 // c19Windows reports (a) whether two claims overlapped between their id draw and their
@@ -202,7 +241,7 @@ func c19Windows(trace []string) (overlap, incrSplit bool) {
 		th, pt := e[:at], e[at+1:]
 		isCounter := strings.HasSuffix(pt, "tunnox:http_domain:next_id")
 		switch {
-		case isCounter && (strings.Contains(pt, ".Incr:") || strings.Contains(pt, ".Get:")):
+		case isCounter && (strings.Contains(pt, ".Incr:") || strings.Contains(pt, ".IncrBy:") || strings.Contains(pt, ".Get:")):
 			if _, ok := open[th]; !ok {
 				open[th] = i
 			}
@@ -460,8 +499,8 @@ func TestVerifC19Schedules(t *testing.T) {
 	thorough := run.Thorough()
 
 	families := []string{"same-name", "diff-names", "same-client-two-names", "create-delete-lookup", "double-delete-reclaim", "nonowner-delete", "delete-reclaim-chain", "random"}
-	exploreRuns := run.Pick(40, 1500)
-	randomRuns := run.Pick(14, 700)
+	exploreRuns := run.Pick(12, 1500)
+	randomRuns := run.Pick(12, 700)
 	const maxSteps = 600
 
 	explore := map[string]any{}
@@ -470,6 +509,44 @@ func TestVerifC19Schedules(t *testing.T) {
 		for _, kind := range c19Kinds {
 			if x.stop {
 				break
+			}
+			// (0) directed one-pause schedules of one instance of the family
+			{
+				sc := c19Family(fam, rnd, thorough)
+				if fam == "random" {
+					c19FixRandomDeletes(sc, rnd)
+				}
+				sc.Kind = kind
+				nt := len(sc.Threads)
+				for first := 0; first < nt && !x.stop; first++ {
+					for dir := 0; dir < 2; dir++ {
+						var rest []string
+						for j := 0; j < nt; j++ {
+							o := j
+							if dir == 1 {
+								o = nt - 1 - j
+							}
+							if o != first {
+								rest = append(rest, fmt.Sprintf("T%d", o))
+							}
+						}
+						if dir == 1 && len(rest) < 2 {
+							continue
+						}
+						for k := 1; k <= 24 && !x.stop; k++ {
+							ch := &c19Pause{First: fmt.Sprintf("T%d", first), K: k, Rest: rest}
+							s := vk.NewSched(ch)
+							after := x.start(sc, s)
+							ok := s.Run(maxSteps)
+							s.Stop()
+							after(ok)
+							run.Count("pause_schedules", 1)
+							if ch.Exhausted {
+								break
+							}
+						}
+					}
+				}
 			}
 			// (1) bounded-preemption enumeration of one instance of the family
 			sc := c19Family(fam, rnd, thorough)
@@ -517,7 +594,9 @@ func TestVerifC19Schedules(t *testing.T) {
 	}
 	run.Floor("schedules", int64(run.Pick(400, 8000)))
 	run.Floor("claims_overlap_incr_setnx", 50)
-	run.Floor("claims_split_counter_read_write", 10)
+	// claims_split_counter_read_write (a second claim reads the id counter between the
+	// read and the write-back of the first) is only reachable while the storage draws
+	// ids with a read + write; it is reported as a counter, not a floor.
 	run.Floor("schedules_with_successful_claim", 200)
 	run.Floor("lookups_quiescent_routed", 100)
 	run.Floor("nonowner_deletes_refused", 10)
